@@ -107,6 +107,10 @@ func solveVC(vc *VC, prelude, dir string, timeoutS, seed int, twoSolvers bool) {
 	file := vcFileName(dir, vc)
 	os.WriteFile(file, []byte(vc.smtText(prelude, "")), 0o644)
 	start := time.Now()
+	if strings.HasPrefix(vc.Kind, "expect") && timeoutS > 5 {
+		// clauses recorded as known findings: a short budget is enough to see them pass once repaired
+		timeoutS = 5
+	}
 	// stage 1: z3-new alone, short
 	short := 3
 	if timeoutS < short {
